@@ -36,7 +36,7 @@ def tape_case(ctx, res, files, verbose=True):
     for (n, c), lc, ll in zip(files, lines_c, lines_l):
         nb = (len(c) + 253) // 254
         want = [f"#{first}", f"{len(c)} octets", f"{nb} blocks."]
-        if lc.split("\t")[3:] != want or ll.split("\t")[3:] != want:
+        if not T.tape_facts_ok(lc.split("\t")[3:], first, len(c), nb) or not T.tape_facts_ok(ll.split("\t")[3:], first, len(c), nb):
             res.violate("tape", "verbose size / blocks / position wrong", case, {"create": lc, "list": ll, "want": want}, {"clause": "tape_facts"})
         if lc != ll:
             res.violate("tape", "create and list report the same file differently", case, {"create": lc, "list": ll}, {"clause": "create_eq_list"})
